@@ -1,11 +1,1117 @@
-// Package c05 is the correspondence/oracle harness for property C05.
+// Package c05: stream decoding exactly inverts every supported encoding.
+//
+// Implementation under test: (&core.Stream{Dict, Data}).Decode() — the only entry
+// point used; FlateDecode's predictors are reached through /FlateDecode with
+// zlib-compressed data, so no verif hook is needed for this property.
 package c05
 
-import "verifharness/hx"
+import (
+	"bytes"
+	"compress/zlib"
+	"encoding/hex"
+	"fmt"
+	"strconv"
+	"strings"
+
+	"github.com/tsawler/tabula/core"
+
+	"verifharness/hx"
+)
+
+// ---- wire-format specs of the stream dictionary --------------------------------
+
+// pobj is one DecodeParms object: Kind "~" absent, "z" null, "o" other type, "d" dict.
+// P = Predictor, Colors, Columns, BitsPerComponent in wire form: "~" absent,
+// "12" Int, "12r" Real with integral value, "x" a non-numeric object.
+type pobj struct {
+	Kind string
+	P    [4]string
+}
+
+func (o pobj) wire() string {
+	if o.Kind == "d" {
+		return "d=" + strings.Join(o.P[:], "/")
+	}
+	return o.Kind
+}
+
+var parmKeys = [4]string{"Predictor", "Colors", "Columns", "BitsPerComponent"}
+
+func (o pobj) object() core.Object {
+	switch o.Kind {
+	case "z":
+		return core.Null{}
+	case "o":
+		return core.Int(7)
+	case "d":
+		d := core.Dict{}
+		for i, f := range o.P {
+			switch {
+			case f == "~":
+			case f == "x":
+				d[parmKeys[i]] = core.Name("x")
+			case strings.HasSuffix(f, "r"):
+				n, _ := strconv.ParseInt(strings.TrimSuffix(f, "r"), 10, 64)
+				d[parmKeys[i]] = core.Real(float64(n))
+			default:
+				n, _ := strconv.ParseInt(f, 10, 64)
+				d[parmKeys[i]] = core.Int(n)
+			}
+		}
+		return d
+	}
+	return nil
+}
+
+func parsePobj(s string) (pobj, error) {
+	if s == "~" || s == "z" || s == "o" {
+		return pobj{Kind: s}, nil
+	}
+	if strings.HasPrefix(s, "d=") {
+		f := strings.Split(s[2:], "/")
+		if len(f) == 4 {
+			return pobj{Kind: "d", P: [4]string{f[0], f[1], f[2], f[3]}}, nil
+		}
+	}
+	return pobj{}, fmt.Errorf("bad parms object %q", s)
+}
+
+type parms struct {
+	Array bool
+	One   pobj
+	Elems []pobj
+}
+
+func (p parms) wire() string {
+	if !p.Array {
+		return p.One.wire()
+	}
+	ws := make([]string, len(p.Elems))
+	for i, e := range p.Elems {
+		ws[i] = e.wire()
+	}
+	return "a:" + strings.Join(ws, ",")
+}
+
+func (p parms) object() core.Object {
+	if !p.Array {
+		return p.One.object()
+	}
+	arr := core.Array{}
+	for _, e := range p.Elems {
+		o := e.object()
+		if o == nil {
+			o = core.Null{}
+		}
+		arr = append(arr, o)
+	}
+	return arr
+}
+
+func parseParms(s string) (parms, error) {
+	if strings.HasPrefix(s, "a:") {
+		p := parms{Array: true}
+		if s == "a:" {
+			return p, nil
+		}
+		for _, e := range strings.Split(s[2:], ",") {
+			o, err := parsePobj(e)
+			if err != nil {
+				return p, err
+			}
+			p.Elems = append(p.Elems, o)
+		}
+		return p, nil
+	}
+	o, err := parsePobj(s)
+	return parms{One: o}, err
+}
+
+// filt is the Filter entry: Kind "~" absent, "o" other type, "n" one name, "a" array.
+// An element is a name, or "" for a non-name object.
+type filt struct {
+	Kind  string
+	Elems []string
+	Other []bool
+}
+
+func (f filt) wire() string {
+	switch f.Kind {
+	case "n":
+		return "n:" + hx.HexS(f.Elems[0])
+	case "a":
+		ws := make([]string, len(f.Elems))
+		for i, e := range f.Elems {
+			if f.Other[i] {
+				ws[i] = "o"
+			} else {
+				ws[i] = hx.HexS(e)
+			}
+		}
+		return "a:" + strings.Join(ws, ",")
+	}
+	return f.Kind
+}
+
+func (f filt) object() core.Object {
+	switch f.Kind {
+	case "o":
+		return core.Int(7)
+	case "n":
+		return core.Name(f.Elems[0])
+	case "a":
+		arr := core.Array{}
+		for i, e := range f.Elems {
+			if f.Other[i] {
+				arr = append(arr, core.Int(7))
+			} else {
+				arr = append(arr, core.Name(e))
+			}
+		}
+		return arr
+	}
+	return nil
+}
+
+func unhex(s string) ([]byte, error) {
+	if s == "-" {
+		return nil, nil
+	}
+	return hex.DecodeString(s)
+}
+
+func parseFilt(s string) (filt, error) {
+	switch {
+	case s == "~" || s == "o":
+		return filt{Kind: s}, nil
+	case strings.HasPrefix(s, "n:"):
+		b, err := unhex(s[2:])
+		return filt{Kind: "n", Elems: []string{string(b)}, Other: []bool{false}}, err
+	case strings.HasPrefix(s, "a:"):
+		f := filt{Kind: "a"}
+		if s == "a:" {
+			return f, nil
+		}
+		for _, e := range strings.Split(s[2:], ",") {
+			if e == "o" {
+				f.Elems, f.Other = append(f.Elems, ""), append(f.Other, true)
+				continue
+			}
+			b, err := unhex(e)
+			if err != nil {
+				return f, err
+			}
+			f.Elems, f.Other = append(f.Elems, string(b)), append(f.Other, false)
+		}
+		return f, nil
+	}
+	return filt{}, fmt.Errorf("bad filter %q", s)
+}
+
+func names(ns ...string) filt {
+	return filt{Kind: "a", Elems: ns, Other: make([]bool, len(ns))}
+}
+
+func oneName(n string) filt { return filt{Kind: "n", Elems: []string{n}, Other: []bool{false}} }
+
+func dictOf(f filt, p parms) core.Dict {
+	d := core.Dict{"Length": core.Int(0)}
+	if o := f.object(); o != nil {
+		d["Filter"] = o
+	}
+	if o := p.object(); o != nil {
+		d["DecodeParms"] = o
+	}
+	return d
+}
+
+// ---- running one stream ---------------------------------------------------------
+
+// streamCase is the replayable form of one decode.
+type streamCase struct {
+	Key    string `json:"key"`
+	Filter string `json:"filter"`
+	Parms  string `json:"parms"`
+	Data   string `json:"data"`
+	Want   string `json:"want"` // "ok <hex>": must decode to this; "err": must fail; "": no expectation
+	Note   string `json:"note,omitempty"`
+}
+
+// decode calls the implementation. ok=false for an error; pan != "" for a panic.
+func decode(f filt, p parms, data []byte) (out []byte, ok bool, pan string) {
+	var err error
+	pan = hx.Safe(func() {
+		out, err = (&core.Stream{Dict: dictOf(f, p), Data: data}).Decode()
+	})
+	return out, pan == "" && err == nil, pan
+}
+
+func replyOf(out []byte, ok bool, pan string) string {
+	if pan != "" {
+		return "panic"
+	}
+	if !ok {
+		return "err"
+	}
+	return "ok " + hx.Hex(out)
+}
+
+func isFlate(n string) bool { return n == "FlateDecode" || n == "Fl" }
+
+// inflateTable lists, for every Flate stage the chain can reach, the input it is given and
+// zlib's answer. Inputs come from `known` (the harness encoder's own intermediates) and from
+// decoding the filter prefix with the implementation; the model looks entries up by the
+// input it computed itself, so a wrong intermediate on either side shows as a divergence.
+func inflateTable(f filt, p parms, data []byte, known [][]byte) string {
+	var ents []string
+	seen := map[string]bool{}
+	add := func(in []byte) {
+		if seen[string(in)] {
+			return
+		}
+		seen[string(in)] = true
+		out, ok := inflate(in)
+		o := "!"
+		if ok {
+			o = hx.Hex(out)
+		}
+		ents = append(ents, hx.Hex(in)+">"+o)
+	}
+	for _, k := range known {
+		add(k)
+	}
+	switch f.Kind {
+	case "n":
+		if isFlate(f.Elems[0]) {
+			add(data)
+		}
+	case "a":
+		cur := data
+		for i := range f.Elems {
+			if f.Other[i] {
+				break
+			}
+			if isFlate(f.Elems[i]) {
+				add(cur)
+			}
+			if i+1 < len(f.Elems) {
+				pre := filt{Kind: "a", Elems: f.Elems[:i+1], Other: f.Other[:i+1]}
+				out, ok, _ := decode(pre, p, data)
+				if !ok {
+					break
+				}
+				cur = out
+			}
+		}
+	}
+	if len(ents) == 0 {
+		return "_"
+	}
+	return strings.Join(ents, ";")
+}
+
+// expectation of the statement-level oracle
+type expect struct {
+	key     string // oracle key
+	want    []byte // valid when hasWant
+	hasWant bool
+	mustErr bool
+	note    string
+}
+
+func wantBytes(key string, x []byte) expect { return expect{key: key, want: x, hasWant: true} }
+func wantErr(key, note string) expect       { return expect{key: key, mustErr: true, note: note} }
+
+var noExpect = expect{}
+
+// run decodes one stream with the implementation, records the correspondence op (kind:
+// "hex", "a85", "pred" or "chain") and applies the oracle. Returns whether it decoded.
+func run(c *hx.Ctx, kind string, f filt, p parms, data []byte, known [][]byte, e expect) ([]byte, bool) {
+	out, ok, pan := decode(f, p, data)
+	reply := replyOf(out, ok, pan)
+	kase := streamCase{Key: e.key, Filter: f.wire(), Parms: p.wire(), Data: hx.Hex(data), Note: e.note}
+	if e.hasWant {
+		kase.Want = "ok " + hx.Hex(e.want)
+	} else if e.mustErr {
+		kase.Want = "err"
+	}
+	c.Check("C05/panic-decode", pan == "", kase, func() string { return "Decode panicked: " + pan })
+	switch kind {
+	case "hex":
+		c.Op("c05.hex "+hx.Hex(data), reply)
+	case "a85":
+		c.Op("c05.a85 "+hx.Hex(data), reply)
+	case "pred":
+		// data is a zlib stream; the model gets what zlib makes of it
+		inf, iok := inflate(data)
+		if iok {
+			c.Op("c05.pred "+strings.Join(p.One.P[:], "/")+" "+hx.Hex(inf), reply)
+		}
+	default:
+		c.Op("c05.chain "+f.wire()+" "+p.wire()+" "+hx.Hex(data)+" "+inflateTable(f, p, data, known), reply)
+	}
+	if e.hasWant {
+		c.Check(e.key, ok && bytes.Equal(out, e.want), kase, func() string {
+			return fmt.Sprintf("decode(encode(x)) != x: Filter=%s DecodeParms=%s data=%s: got %s want ok %s",
+				describeFilter(f), p.wire(), clip(hx.Hex(data)), clip(reply), clip(hx.Hex(e.want)))
+		})
+	}
+	if e.mustErr {
+		c.Check(e.key, !ok, kase, func() string {
+			return fmt.Sprintf("undecodable data (%s) decoded without error: Filter=%s DecodeParms=%s data=%s: got %s",
+				e.note, describeFilter(f), p.wire(), clip(hx.Hex(data)), clip(reply))
+		})
+	}
+	return out, ok
+}
+
+func clip(s string) string {
+	if len(s) > 160 {
+		return s[:160] + fmt.Sprintf("…(%d chars)", len(s))
+	}
+	return s
+}
+
+func describeFilter(f filt) string {
+	switch f.Kind {
+	case "n":
+		return "/" + f.Elems[0]
+	case "a":
+		var b []string
+		for i, e := range f.Elems {
+			if f.Other[i] {
+				b = append(b, "7")
+			} else {
+				b = append(b, "/"+e)
+			}
+		}
+		return "[" + strings.Join(b, " ") + "]"
+	}
+	return f.Kind
+}
+
+// ---- pipelines ------------------------------------------------------------------
+
+type stage struct {
+	Kind    string // "fl", "hex", "a85"
+	Abbrev  bool
+	Pred    int // 0: no DecodeParms for this stage; otherwise the Predictor value
+	Colors  int
+	Columns int
+	Tags    []byte
+	Level   int
+	Style   asciiStyle
+	Verbose int // how the params dict is written: 0 minimal, 1 all keys, 2 Real numbers
+}
+
+func (s stage) name() string {
+	switch s.Kind {
+	case "fl":
+		if s.Abbrev {
+			return "Fl"
+		}
+		return "FlateDecode"
+	case "hex":
+		if s.Abbrev {
+			return "AHx"
+		}
+		return "ASCIIHexDecode"
+	}
+	if s.Abbrev {
+		return "A85"
+	}
+	return "ASCII85Decode"
+}
+
+func (s stage) hasParms() bool { return s.Kind == "fl" && s.Pred != 0 }
+
+func (s stage) pobj() pobj {
+	if !s.hasParms() {
+		return pobj{Kind: "z"}
+	}
+	num := func(n int) string {
+		if s.Verbose == 2 {
+			return strconv.Itoa(n) + "r"
+		}
+		return strconv.Itoa(n)
+	}
+	o := pobj{Kind: "d", P: [4]string{num(s.Pred), "~", "~", "~"}}
+	if s.Colors != 1 || s.Verbose >= 1 {
+		o.P[1] = num(s.Colors)
+	}
+	if s.Columns != 1 || s.Verbose >= 1 {
+		o.P[2] = num(s.Columns)
+	}
+	if s.Verbose >= 1 {
+		o.P[3] = num(8)
+	}
+	return o
+}
+
+// encode applies the conforming encoder of one stage; for a Flate stage it also returns
+// the bytes handed to zlib (what inflate must give back).
+func (s stage) encode(r *hx.Rng, in []byte) (out []byte) {
+	switch s.Kind {
+	case "hex":
+		return hexEncode(r, in, s.Style)
+	case "a85":
+		return a85Encode(r, in, s.Style)
+	}
+	pre := in
+	switch {
+	case s.Pred == 2:
+		pre = tiffPredict(in, s.Colors, s.Columns)
+	case s.Pred >= 10:
+		pre = pngPredict(in, s.Colors, s.Columns, s.Tags)
+	}
+	return deflate(pre, s.Level)
+}
+
+var levels = []int{zlib.NoCompression, zlib.BestSpeed, zlib.DefaultCompression, zlib.BestCompression, zlib.HuffmanOnly}
+
+// geometry for a predictor stage whose input has n bytes: colors*columns must divide n.
+func pickGeometry(r *hx.Rng, n int) (colors, columns int) {
+	if n == 0 {
+		return r.Range(1, 4), r.Range(1, 64)
+	}
+	var cs []int
+	for c := 1; c <= 4; c++ {
+		if n%c == 0 {
+			cs = append(cs, c)
+		}
+	}
+	colors = hx.Pick(r, cs)
+	m := n / colors
+	var ds []int
+	for d := 1; d <= 64 && d <= m; d++ {
+		if m%d == 0 {
+			ds = append(ds, d)
+		}
+	}
+	if m <= 4096 {
+		ds = append(ds, m)
+	}
+	return colors, hx.Pick(r, ds)
+}
+
+func randomTags(r *hx.Rng, pred, rows int) []byte {
+	tags := make([]byte, rows)
+	uniform := pred >= 10 && pred <= 14 && r.Bool()
+	for i := range tags {
+		if uniform {
+			tags[i] = byte(pred - 10)
+		} else {
+			tags[i] = byte(r.Intn(5))
+		}
+	}
+	return tags
+}
+
+// content classes of the quantifier: random, all-zero, all-FF, periodic rows, ramps, few symbols
+func content(r *hx.Rng, n, period int) ([]byte, string) {
+	b := make([]byte, n)
+	class := hx.Pick(r, []string{"random", "random", "zero", "ff", "periodic", "ramp", "sparse", "ascii85ish"})
+	switch class {
+	case "random":
+		copy(b, r.Bytes(n))
+	case "ff":
+		for i := range b {
+			b[i] = 0xFF
+		}
+	case "periodic":
+		if period <= 0 {
+			period = r.Range(1, 9)
+		}
+		pat := r.Bytes(period)
+		for i := range b {
+			b[i] = pat[i%period]
+		}
+	case "ramp":
+		step := byte(r.Range(1, 7))
+		for i := range b {
+			b[i] = byte(i) * step
+		}
+	case "sparse":
+		for i := range b {
+			if r.Chance(1, 6) {
+				b[i] = hx.Pick(r, []byte{1, 0x7F, 0x80, 0xFF})
+			}
+		}
+	case "ascii85ish":
+		for i := range b {
+			b[i] = hx.Pick(r, []byte{'z', '~', '>', '!', 'u', ' ', 0})
+		}
+	}
+	return b, class
+}
+
+// buildChain encodes x through the stages (last stage first) fixing the geometry of predictor
+// stages that are not last from the length of their input. Returns the encoded data and the
+// intermediates handed to zlib-compress (keys of the inflate table are their compressed forms).
+func buildChain(r *hx.Rng, stages []stage, x []byte) (data []byte, flateInputs [][]byte) {
+	cur := x
+	for i := len(stages) - 1; i >= 0; i-- {
+		s := &stages[i]
+		if s.Kind == "fl" && s.Pred >= 2 && s.Columns == 0 {
+			s.Colors, s.Columns = pickGeometry(r, len(cur))
+			if s.Pred >= 10 {
+				rows := 0
+				if len(cur) > 0 {
+					rows = len(cur) / (s.Colors * s.Columns)
+				}
+				s.Tags = randomTags(r, s.Pred, rows)
+			}
+		}
+		cur = s.encode(r, cur)
+		if s.Kind == "fl" {
+			flateInputs = append(flateInputs, cur)
+		}
+	}
+	return cur, flateInputs
+}
+
+func randomStage(r *hx.Rng) stage {
+	s := stage{Kind: hx.Pick(r, []string{"fl", "fl", "hex", "a85"}), Abbrev: r.Bool(), Colors: 1, Columns: 1,
+		Level: hx.Pick(r, levels), Verbose: hx.Pick(r, []int{0, 0, 1, 2})}
+	s.Style = asciiStyle{Upper: r.Intn(3), NoZ: r.Chance(1, 4), DropZero: r.Chance(1, 4)}
+	if r.Bool() {
+		s.Style.WS = r.Range(1, 6)
+	}
+	if s.Kind == "fl" {
+		s.Pred = hx.Pick(r, []int{0, 0, 1, 2, 10, 11, 12, 13, 14, 15, 15, 15})
+		if s.Pred >= 2 {
+			s.Columns = 0 // chosen by buildChain
+		}
+	}
+	return s
+}
+
+// shapes of Filter / DecodeParms that a conforming writer may use for the stages
+func shapes(r *hx.Rng, stages []stage) (filt, parms, string) {
+	ns := make([]string, len(stages))
+	any := false
+	for i, s := range stages {
+		ns[i] = s.name()
+		any = any || s.hasParms()
+	}
+	f := names(ns...)
+	if len(stages) == 1 && r.Bool() {
+		f = oneName(ns[0])
+	}
+	if !any {
+		switch r.Intn(4) {
+		case 0:
+			return f, parms{One: pobj{Kind: "~"}}, "parms-absent"
+		case 1:
+			return f, parms{One: pobj{Kind: "z"}}, "parms-null"
+		case 2:
+			if f.Kind == "n" {
+				return f, parms{One: pobj{Kind: "d", P: [4]string{"~", "~", "~", "~"}}}, "parms-dict"
+			}
+		}
+	}
+	if f.Kind == "n" || (len(stages) == 1 && r.Bool()) {
+		// one filter: the parameter dictionary itself
+		o := stages[0].pobj()
+		if o.Kind == "z" && r.Bool() {
+			o = pobj{Kind: "d", P: [4]string{"~", "~", "~", "~"}}
+		}
+		if o.Kind == "d" {
+			return f, parms{One: o}, "parms-dict"
+		}
+		return f, parms{One: o}, "parms-null"
+	}
+	p := parms{Array: true}
+	for _, s := range stages {
+		p.Elems = append(p.Elems, s.pobj())
+	}
+	return f, p, "parms-array"
+}
+
+type pipeCase struct {
+	Seed  uint64 `json:"seed"`
+	Index int    `json:"index"`
+}
+
+// RunPipeline generates random pipeline number idx of the seed's stream and checks it.
+func RunPipeline(c *hx.Ctx, idx int) {
+	r := c.Rng.Fork(uint64(idx))
+	nst := r.Range(1, 3)
+	stages := make([]stage, nst)
+	for i := range stages {
+		stages[i] = randomStage(r)
+	}
+	// size class
+	maxLen := 64
+	switch r.Intn(10) {
+	case 0, 1, 2:
+		maxLen = 8
+	case 3, 4, 5:
+		maxLen = 300
+	case 6, 7:
+		maxLen = 4096
+	case 8:
+		if c.Thorough() || r.Chance(1, 6) {
+			maxLen = 65536
+		} else {
+			maxLen = 4096
+		}
+	}
+	n := r.Intn(maxLen + 1)
+	if r.Chance(1, 12) && maxLen == 65536 {
+		n = 65536
+	}
+	last := &stages[nst-1]
+	period := 0
+	if last.Kind == "fl" && last.Pred >= 2 {
+		last.Colors = r.Range(1, 4)
+		last.Columns = r.Range(1, 64)
+		if r.Chance(1, 10) {
+			last.Columns = r.Range(65, 700)
+		}
+		rowLen := last.Colors * last.Columns
+		rows := n / rowLen
+		if rows == 0 && r.Chance(2, 3) {
+			rows = 1
+		}
+		n = rows * rowLen
+		period = rowLen
+		if r.Bool() {
+			period = last.Colors
+		}
+		if last.Pred >= 10 {
+			last.Tags = randomTags(r, last.Pred, rows)
+		}
+	}
+	x, class := content(r, n, period)
+	data, flIn := buildChain(r, stages, x)
+	f, p, shape := shapes(r, stages)
+	var kinds []string
+	key := "C05/roundtrip-chain"
+	for _, s := range stages {
+		k := s.Kind
+		if s.Kind == "fl" {
+			switch {
+			case s.Pred == 2:
+				k = "fl+tiff"
+			case s.Pred >= 10:
+				k = "fl+png"
+			}
+		}
+		kinds = append(kinds, k)
+	}
+	if nst == 1 {
+		key = map[string]string{"fl": "C05/flate-roundtrip", "fl+tiff": "C05/tiff-roundtrip", "fl+png": "C05/png-roundtrip",
+			"hex": "C05/hex-roundtrip", "a85": "C05/a85-roundtrip"}[kinds[0]]
+	}
+	e := wantBytes(key, x)
+	e.note = fmt.Sprintf("seed=%d index=%d stages=%s content=%s", c.Seed, idx, strings.Join(kinds, ","), class)
+	_, ok := run(c, "chain", f, p, data, flIn, e)
+	c.Count("pipeline:" + strings.Join(kinds, ">"))
+	c.Count("shape:" + shape)
+	c.Count("content:" + class)
+	switch {
+	case len(x) == 0:
+		c.Count("len:0")
+	case len(x) <= 64:
+		c.Count("len:1-64")
+	case len(x) <= 4096:
+		c.Count("len:65-4096")
+	default:
+		c.Count("len:4097-65536")
+	}
+	c.Case(fmt.Sprintf("%s|%s|%x", f.wire(), p.wire(), data), ok && len(x) > 0)
+
+	// the same data under a non-conforming but tolerated parameter layout, and malformed
+	// variants: correspondence only
+	if r.Chance(1, 4) {
+		malformed(c, r, f, p, data, flIn)
+	}
+}
+
+// malformed damages an encoded stream / its dictionary; no expectation except "no panic" and
+// agreement with the model.
+func malformed(c *hx.Ctx, r *hx.Rng, f filt, p parms, data []byte, known [][]byte) {
+	d := append([]byte(nil), data...)
+	what := r.Intn(8)
+	switch what {
+	case 0: // flip a byte
+		if len(d) > 0 {
+			d[r.Intn(len(d))] ^= byte(1 << uint(r.Intn(8)))
+		}
+	case 1: // delete a byte
+		if len(d) > 0 {
+			i := r.Intn(len(d))
+			d = append(d[:i], d[i+1:]...)
+		}
+	case 2: // insert a byte from the interesting alphabet
+		i := r.Intn(len(d) + 1)
+		b := hx.Pick(r, []byte{'z', '~', '>', 'u', '!', 'v', ' ', 0, 'g', 'G', 0x80, 0xFF})
+		d = append(d[:i], append([]byte{b}, d[i:]...)...)
+	case 3: // truncate
+		d = d[:r.Intn(len(d)+1)]
+	case 4: // drop the params / shorten the params array
+		if p.Array && len(p.Elems) > 0 {
+			p.Elems = p.Elems[:r.Intn(len(p.Elems))]
+		} else {
+			p = parms{One: pobj{Kind: hx.Pick(r, []string{"~", "z", "o"})}}
+		}
+	case 5: // reverse the filter array
+		if f.Kind == "a" {
+			g := names()
+			for i := len(f.Elems) - 1; i >= 0; i-- {
+				g.Elems, g.Other = append(g.Elems, f.Elems[i]), append(g.Other, f.Other[i])
+			}
+			f = g
+		}
+	case 6: // one dict for every filter of the array
+		if p.Array && len(p.Elems) > 0 {
+			p = parms{One: hx.Pick(r, p.Elems)}
+		}
+	case 7: // a non-name in the filter array / params array under a single name
+		if f.Kind == "a" && len(f.Elems) > 0 {
+			i := r.Intn(len(f.Elems))
+			f.Other = append([]bool(nil), f.Other...)
+			f.Other[i] = true
+		} else if f.Kind == "n" {
+			p = parms{Array: true, Elems: []pobj{p.One}}
+		}
+	}
+	_, ok := run(c, "chain", f, p, d, known, noExpect)
+	c.Count(fmt.Sprintf("malformed:%d:ok=%v", what, ok))
+	c.Case("", false)
+}
+
+// ---- exhaustive small inputs ----------------------------------------------------------
+
+var smallAlphabet = []byte{0x00, 0x01, 0x7F, 0x80, 0xFF, 'z', '~', '>'}
+
+func allStrings(alpha []byte, maxLen int) [][]byte {
+	res := [][]byte{{}}
+	prev := [][]byte{{}}
+	for l := 1; l <= maxLen; l++ {
+		var next [][]byte
+		for _, p := range prev {
+			for _, a := range alpha {
+				s := append(append([]byte(nil), p...), a)
+				next = append(next, s)
+			}
+		}
+		res = append(res, next...)
+		prev = next
+	}
+	return res
+}
+
+func onePred(pred, colors, columns int) parms {
+	return parms{One: pobj{Kind: "d", P: [4]string{strconv.Itoa(pred), strconv.Itoa(colors), strconv.Itoa(columns), "~"}}}
+}
+
+func exhaustiveSmall(c *hx.Ctx) {
+	strs := allStrings(smallAlphabet, 3)
+	r := c.Rng.Fork(0xE5)
+	for _, s := range strs {
+		// canonical and styled ASCII encodings
+		run(c, "hex", oneName("ASCIIHexDecode"), parms{One: pobj{Kind: "~"}}, hexEncode(nil, s, asciiStyle{}), nil, wantBytes("C05/hex-roundtrip", s))
+		st := asciiStyle{Upper: r.Intn(3), WS: r.Range(0, 8), DropZero: r.Bool()}
+		run(c, "hex", oneName("AHx"), parms{One: pobj{Kind: "~"}}, hexEncode(r, s, st), nil, wantBytes("C05/hex-roundtrip", s))
+		run(c, "a85", oneName("ASCII85Decode"), parms{One: pobj{Kind: "~"}}, a85Encode(nil, s, asciiStyle{}), nil, wantBytes("C05/a85-roundtrip", s))
+		st = asciiStyle{WS: r.Range(0, 8), NoZ: r.Bool()}
+		run(c, "a85", oneName("A85"), parms{One: pobj{Kind: "~"}}, a85Encode(r, s, st), nil, wantBytes("C05/a85-roundtrip", s))
+		// zero-extended to full groups (z handling)
+		z := append(append([]byte{0, 0, 0, 0}, s...), 0, 0, 0, 0, 0)
+		run(c, "a85", oneName("A85"), parms{One: pobj{Kind: "~"}}, a85Encode(nil, z, asciiStyle{}), nil, wantBytes("C05/a85-roundtrip", z))
+		c.Case("ascii"+string(s), len(s) > 0)
+	}
+	c.Count("exhaustive:ascii-strings")
+	// every predictor setting x geometry x short string (tiled into 1..3 rows)
+	k := 0
+	for _, pred := range []int{1, 2, 10, 11, 12, 13, 14, 15} {
+		for colors := 1; colors <= 4; colors++ {
+			for columns := 1; columns <= 8; columns++ {
+				for si, s := range strs {
+					k++
+					if !c.Thorough() && !(colors <= 2 && columns <= 2) && (k%23) != 0 {
+						continue
+					}
+					rowLen := colors * columns
+					rows := len(s)
+					x := make([]byte, rows*rowLen)
+					for i := range x {
+						x[i] = s[(i/rowLen+i%rowLen)%len(s)]
+					}
+					if pred == 1 {
+						x = s
+						rows = 0
+					}
+					tags := make([]byte, rows)
+					for i := range tags {
+						if pred == 15 {
+							tags[i] = byte((si + i*3 + columns) % 5)
+						} else if pred >= 10 {
+							tags[i] = byte(pred - 10)
+						}
+					}
+					stg := stage{Kind: "fl", Pred: pred, Colors: colors, Columns: columns, Tags: tags, Level: zlib.BestSpeed}
+					key := "C05/png-roundtrip"
+					if pred == 2 {
+						key = "C05/tiff-roundtrip"
+					} else if pred == 1 {
+						key = "C05/flate-roundtrip"
+					}
+					_, ok := run(c, "pred", oneName("FlateDecode"), onePred(pred, colors, columns), stg.encode(nil, x), nil, wantBytes(key, x))
+					c.Case(fmt.Sprintf("pred%d/%d/%d/%x", pred, colors, columns, x), ok && len(x) > 0)
+				}
+			}
+		}
+	}
+	c.Count("exhaustive:predictor-geometry-strings")
+}
+
+// rawAlphabets feeds every string over small alphabets of *encoded* characters straight to the
+// ASCII decoders (state machines of the decoders; mostly undecodable or oddly terminated).
+func rawAlphabets(c *hx.Ctx) {
+	none := parms{One: pobj{Kind: "~"}}
+	for _, s := range allStrings([]byte{'0', 'a', 'F', 'g', ' ', '>', 0x00, 0x80}, c.N(4, 5)) {
+		_, ok := run(c, "hex", oneName("AHx"), none, s, nil, noExpect)
+		c.Case("rawhex"+string(s), ok && len(s) > 0)
+	}
+	for _, s := range allStrings([]byte{'!', 'u', 's', 'z', '~', '>', ' ', 'v'}, c.N(4, 6)) {
+		_, ok := run(c, "a85", oneName("A85"), none, s, nil, noExpect)
+		c.Case("rawa85"+string(s), ok && len(s) > 0)
+	}
+	c.Count("exhaustive:raw-ascii-alphabets")
+}
+
+// tagTriples: all choices of per-row filter types for three rows, over a grid of geometries.
+func tagTriples(c *hx.Ctx) {
+	r := c.Rng.Fork(0x7A6)
+	for t := 0; t < 125; t++ {
+		tags := []byte{byte(t / 25), byte(t / 5 % 5), byte(t % 5)}
+		for colors := 1; colors <= 4; colors++ {
+			for _, columns := range []int{1, 2, 3, 5, 8} {
+				if !c.Thorough() && (t+colors+columns)%3 != 0 {
+					continue
+				}
+				x, _ := content(r, 3*colors*columns, 0)
+				stg := stage{Kind: "fl", Pred: 15, Colors: colors, Columns: columns, Tags: tags, Level: zlib.BestSpeed}
+				_, ok := run(c, "pred", oneName("Fl"), onePred(15, colors, columns), stg.encode(nil, x), nil, wantBytes("C05/png-roundtrip", x))
+				c.Case(fmt.Sprintf("tags%v/%d/%d/%x", tags, colors, columns, x), ok)
+			}
+		}
+	}
+	c.Count("exhaustive:tag-triples")
+}
+
+// ---- undecodable data must be an error ----------------------------------------------
+
+func undecodable(c *hx.Ctx) {
+	r := c.Rng.Fork(0xBAD)
+	none := parms{One: pobj{Kind: "~"}}
+	n := c.N(150, 1500)
+	for i := 0; i < n; i++ {
+		x := r.Bytes(r.Range(1, 40))
+		// hex: a byte that is neither a digit, white space nor '>' before the EOD
+		{
+			enc := hexEncode(r, x, asciiStyle{Upper: r.Intn(3), WS: r.Intn(4)})
+			pos := r.Intn(len(enc) - 1)
+			bad := hx.Pick(r, []byte{'g', 'G', 'x', '/', ':', '@', '`', '<', '~', 0x80, 0xFF, '-', '.'})
+			d := append(append(append([]byte(nil), enc[:pos]...), bad), enc[pos:]...)
+			if r.Bool() {
+				d = append(append(append([]byte(nil), enc[:pos]...), bad), enc[pos+1:]...)
+				if enc[pos] == '>' {
+					d = append(d, '>')
+				}
+			}
+			run(c, "hex", oneName("ASCIIHexDecode"), none, d, nil, wantErr("C05/undecodable-hex-nonhex", fmt.Sprintf("byte %#x at %d", bad, pos)))
+		}
+		// a85: a byte outside !..u that is not z, white space or the EOD
+		{
+			enc := a85Encode(r, x, asciiStyle{WS: r.Intn(4)})
+			pos := r.Intn(len(enc) - 1)
+			bad := hx.Pick(r, []byte{'v', 'w', 'x', 'y', '{', '|', '}', 0x7F, 0x80, 0xFF, 0x01, 0x1F})
+			d := append(append(append([]byte(nil), enc[:pos]...), bad), enc[pos:]...)
+			run(c, "a85", oneName("ASCII85Decode"), none, d, nil, wantErr("C05/undecodable-a85-char", fmt.Sprintf("byte %#x at %d", bad, pos)))
+		}
+		// a85: z inside a group (after 1..4 digits of a non-zero group)
+		{
+			pre := r.Bytes(4 * r.Intn(3))
+			grp := []byte{byte(r.Range(1, 255)), byte(r.Intn(256)), byte(r.Intn(256)), byte(r.Intn(256))}
+			e1 := a85Encode(nil, pre, asciiStyle{NoZ: true})
+			e1 = e1[:len(e1)-2]
+			e2 := a85Encode(nil, grp, asciiStyle{NoZ: true})
+			k := r.Range(1, 4)
+			d := append(append([]byte(nil), e1...), e2[:k]...)
+			if r.Bool() {
+				d = append(d, ' ')
+			}
+			d = append(d, 'z')
+			d = append(d, e2[k:]...)
+			run(c, "a85", oneName("A85"), none, d, nil, wantErr("C05/undecodable-a85-z-in-group", fmt.Sprintf("z after %d digits", k)))
+		}
+		// a85: a group whose value exceeds 2^32-1
+		{
+			pre := a85Encode(nil, r.Bytes(4*r.Intn(3)), asciiStyle{})
+			pre = pre[:len(pre)-2]
+			var grp []byte
+			for {
+				grp = []byte{'s' + byte(r.Intn(3)), byte(r.Range('!', 'u')), byte(r.Range('!', 'u')), byte(r.Range('!', 'u')), byte(r.Range('!', 'u'))}
+				v := uint64(0)
+				for _, g := range grp {
+					v = v*85 + uint64(g-'!')
+				}
+				if v > 0xFFFFFFFF {
+					break
+				}
+			}
+			if r.Chance(1, 5) {
+				grp = []byte("s8W-\"") // 2^32 exactly
+			}
+			if r.Chance(1, 6) {
+				grp = grp[:0]
+				for k := r.Range(2, 4); k > 0; k-- { // partial group of u: padded value is 85^5-1
+					grp = append(grp, 'u')
+				}
+			}
+			d := append(append(append([]byte(nil), pre...), grp...), '~', '>')
+			run(c, "a85", oneName("A85"), none, d, nil, wantErr("C05/undecodable-a85-overflow", "group "+string(grp)))
+		}
+		// predictors
+		colors, columns := r.Range(1, 4), r.Range(1, 16)
+		rowLen := colors * columns
+		rows := r.Range(1, 4)
+		raw := r.Bytes(rows * rowLen)
+		{ // data that is not a whole number of rows
+			pred := hx.Pick(r, []int{2, 10, 12, 15})
+			rs := rowLen
+			if pred >= 10 {
+				rs++
+			}
+			if rs > 1 {
+				bad := r.Bytes(rows*rs + r.Range(1, rs-1))
+				run(c, "pred", oneName("FlateDecode"), onePred(pred, colors, columns), deflate(bad, zlib.BestSpeed), nil,
+					wantErr("C05/undecodable-row-mismatch", fmt.Sprintf("%d bytes, row size %d", len(bad), rs)))
+			}
+		}
+		{ // a PNG filter-type byte above 4
+			tags := randomTags(r, 15, rows)
+			enc := pngPredict(raw, colors, columns, tags)
+			enc[r.Intn(rows)*(rowLen+1)] = byte(r.Range(5, 255))
+			run(c, "pred", oneName("Fl"), onePred(hx.Pick(r, []int{10, 11, 12, 13, 14, 15}), colors, columns), deflate(enc, zlib.BestSpeed), nil,
+				wantErr("C05/undecodable-png-tag", "filter type > 4"))
+		}
+		{ // Predictor values that do not exist
+			pred := hx.Pick(r, []int{0, 3, 4, 9, 16, 20, -1, -10, 255, 1 << 20})
+			run(c, "pred", oneName("Fl"), onePred(pred, colors, columns), deflate(raw, zlib.BestSpeed), nil,
+				wantErr("C05/undecodable-predictor", fmt.Sprintf("Predictor %d", pred)))
+		}
+		{ // BitsPerComponent other than 8 is not supported: must be refused, not mis-decoded
+			pred := hx.Pick(r, []int{2, 10, 12, 15})
+			p := onePred(pred, colors, columns)
+			p.One.P[3] = strconv.Itoa(hx.Pick(r, []int{1, 2, 4, 16, 0, -8, 7}))
+			enc := raw
+			if pred >= 10 {
+				enc = pngPredict(raw, colors, columns, randomTags(r, pred, rows))
+			}
+			run(c, "pred", oneName("Fl"), p, deflate(enc, zlib.BestSpeed), nil, wantErr("C05/undecodable-bpc", "BitsPerComponent "+p.One.P[3]))
+		}
+		{ // Columns/Colors that are not positive (or overflow): no row geometry exists
+			pred := hx.Pick(r, []int{2, 10, 12, 15})
+			geo := [][2]int64{{0, 1}, {1, 0}, {-1, 1}, {1, -1}, {-1, -1}, {-2, -3}, {0, 0}, {-3, 1}, {1, -2},
+				{1 << 32, 1 << 32}, {1 << 62, 4}, {-1 << 63, 1}, {1 << 31, 1 << 31}, {-int64(r.Range(1, 9)), int64(r.Range(1, 4))}}
+			g := hx.Pick(r, geo)
+			p := parms{One: pobj{Kind: "d", P: [4]string{strconv.Itoa(pred), strconv.FormatInt(g[1], 10), strconv.FormatInt(g[0], 10), "~"}}}
+			d := r.Bytes(r.Range(1, 12))
+			run(c, "pred", oneName("FlateDecode"), p, deflate(d, zlib.BestSpeed), nil,
+				wantErr("C05/undecodable-geometry", fmt.Sprintf("Columns=%d Colors=%d", g[0], g[1])))
+		}
+		{ // a damaged zlib stream
+			z := deflate(r.Bytes(r.Range(8, 200)), hx.Pick(r, levels))
+			switch r.Intn(3) {
+			case 0:
+				z = z[:r.Range(0, len(z)-1)]
+			case 1:
+				z[0] ^= 0x55
+			case 2:
+				z[len(z)-1-r.Intn(4)] ^= 0xFF // Adler-32 checksum
+			}
+			if _, ok := inflate(z); !ok {
+				run(c, "chain", oneName("Fl"), none, z, nil, wantErr("C05/undecodable-zlib", "zlib rejects the stream"))
+			}
+		}
+		c.Case("", false)
+	}
+	// filters tabula does not implement and names it does not know: an error, not the raw bytes
+	for _, nm := range []string{"LZWDecode", "LZW", "RunLengthDecode", "RL", "JBIG2Decode", "Crypt", "Flate", "flatedecode", "FL", "AHX", "A85Decode", "", "ASCIIHexDecode "} {
+		run(c, "chain", oneName(nm), none, []byte("00>"), nil, wantErr("C05/undecodable-unknown-filter", "filter "+nm))
+		run(c, "chain", names("AHx", nm), none, []byte("00>"), nil, wantErr("C05/undecodable-unknown-filter", "filter "+nm))
+	}
+	// structure of the dictionary: correspondence
+	for _, f := range []filt{{Kind: "~"}, {Kind: "o"}, names(), {Kind: "a", Elems: []string{""}, Other: []bool{true}},
+		{Kind: "a", Elems: []string{"AHx", ""}, Other: []bool{false, true}}, oneName("DCTDecode"), oneName("DCT"), oneName("JPXDecode"),
+		names("AHx", "DCT"), names("A85", "JPXDecode", "AHx")} {
+		for _, p := range []parms{none, {One: pobj{Kind: "z"}}, {One: pobj{Kind: "o"}}, {Array: true}, {Array: true, Elems: []pobj{{Kind: "z"}, {Kind: "o"}}}} {
+			run(c, "chain", f, p, []byte("36 31>"), nil, noExpect)
+		}
+	}
+	c.Count("undecodable-classes")
+}
+
+// ---- specification encoders of the model vs the harness's encoders -----------------
+
+func specEncoders(c *hx.Ctx) {
+	r := c.Rng.Fork(0x5EC)
+	for i := 0; i < c.N(300, 3000); i++ {
+		x, _ := content(r, r.Intn(40), 0)
+		c.Op("c05.enc.hex l "+hx.Hex(x), "ok "+hx.Hex(hexEncode(nil, x, asciiStyle{})))
+		c.Op("c05.enc.hex u "+hx.Hex(x), "ok "+hx.Hex(hexEncode(nil, x, asciiStyle{Upper: 1})))
+		c.Op("c05.enc.a85 "+hx.Hex(x), "ok "+hx.Hex(a85Encode(nil, x, asciiStyle{})))
+		colors, columns, rows := r.Range(1, 4), r.Range(1, 9), r.Range(0, 4)
+		y, _ := content(r, colors*columns*rows, 0)
+		tags := randomTags(r, 15, rows)
+		c.Op(fmt.Sprintf("c05.enc.png %d %d %s %s", colors, columns, hx.Hex(tags), hx.Hex(y)), "ok "+hx.Hex(pngPredict(y, colors, columns, tags)))
+		c.Op(fmt.Sprintf("c05.enc.tiff %d %d %s", colors, columns, hx.Hex(y)), "ok "+hx.Hex(tiffPredict(y, colors, columns)))
+	}
+	c.Count("spec-encoder-ops")
+}
 
 func init() { hx.Register("C05", Run, Replay) }
 
-// Run is not built yet for this property.
-func Run(c *hx.Ctx) { c.Note("C05: harness not built") }
+func Run(c *hx.Ctx) {
+	c.Rep.Rule = "exhaustive: every byte string of length <= 3 over {00,01,7F,80,FF,z,~,>} through ASCIIHex/ASCII85 (canonical and white-space/case styled) and, tiled into rows, through Flate with Predictor {1,2,10..15} x Colors 1..4 x Columns 1..8 (quick tier: full for small geometries, every 23rd otherwise); all per-row PNG filter-type triples over a geometry grid; every string of length <= 4 (thorough 5/6) over alphabets of encoded characters fed raw to the ASCII decoders. random: pipelines of 1..3 stages of {Flate (no parms, Predictor 1, TIFF, PNG with independent per-row types), ASCIIHex, ASCII85} with full or abbreviated names, lengths 0..64 KiB, random/zero/FF/periodic/ramp/sparse content, Columns 1..700, Colors 1..4, DecodeParms as dict, array, null or absent, encoded by the harness's own encoders (from the PDF/PNG/TIFF specifications) and compress/zlib at five levels. undecodable classes built by damaging conforming encodings in a way the specification forbids. non-trivial = decoded without error to a non-empty string; distinct by (Filter, DecodeParms, data)."
+	exhaustiveSmall(c)
+	rawAlphabets(c)
+	tagTriples(c)
+	undecodable(c)
+	specEncoders(c)
+	n := c.N(1200, 12000)
+	for i := 0; i < n; i++ {
+		RunPipeline(c, i)
+	}
+	c.Rep.Exhaustive = false
+}
 
-func Replay(c *hx.Ctx, kase map[string]interface{}) {}
+// Replay re-runs one recorded failing case on the implementation.
+func Replay(c *hx.Ctx, kase map[string]interface{}) {
+	str := func(k string) string { s, _ := kase[k].(string); return s }
+	f, err1 := parseFilt(str("filter"))
+	p, err2 := parseParms(str("parms"))
+	data, err3 := unhex(str("data"))
+	if err1 != nil || err2 != nil || err3 != nil {
+		c.Note("replay: cannot parse case: %v %v %v", err1, err2, err3)
+		fmt.Println("replay: cannot parse case", err1, err2, err3)
+		return
+	}
+	e := expect{key: str("key"), note: str("note")}
+	want := str("want")
+	switch {
+	case want == "err":
+		e.mustErr = true
+	case strings.HasPrefix(want, "ok "):
+		w, _ := unhex(want[3:])
+		e.want, e.hasWant = w, true
+	}
+	out, ok, pan := decode(f, p, data)
+	fmt.Printf("replay: Filter=%s DecodeParms=%s data=%s\n  expected: %s\n  actual:   %s\n", describeFilter(f), p.wire(), clip(hx.Hex(data)), clip(want), clip(replyOf(out, ok, pan)))
+	run(c, "chain", f, p, data, nil, e)
+}
